@@ -501,6 +501,145 @@ def r8(F, R):
 
 
 
+def _zero_divisions(F, in_scope):
+    """Divisions that panic when the divisor is zero: integer `/` `%` with a divisor that is not a constant (MIR emits a DivisionByZero /
+    RemainderByZero assertion for exactly those), and `Duration / u32` (`<Duration as Div<u32>>::div` panics on 0)."""
+    out = []
+    for b in sorted(F.bodies.values(), key=lambda x: x.path):
+        if not in_scope(b) or K.is_std_derive(b):
+            continue
+        for bi, blk in enumerate(b.blocks):
+            if blk["cleanup"]:
+                continue
+            t = blk["term"]
+
+            def guarded(div):
+                """`div` is known to be non-zero here: the block is only reached where `div > 0` / `div != 0` / `div >= 1` was established."""
+                from . import rel as Rl
+                from .facts import vt_str as _s
+                for (o, l, r, _sw) in Rl.edge_relations(b, bi):
+                    if r is None:
+                        continue
+                    for (op, x, y) in ((o, l, r), (Rl.FLIP.get(o), r, l)):
+                        if _s(x) == _s(div) and y[0] == "const" and y[2] is not None:
+                            try:
+                                c_ = float(y[2])
+                            except ValueError:
+                                continue
+                            if (op == "Gt" and c_ >= 0) or (op == "Ne" and c_ == 0) or (op == "Ge" and c_ >= 1):
+                                return True
+                return False
+            if t["k"] == "assert" and str(t.get("msg", "")).startswith(("DivisionByZero", "RemainderByZero")):
+                cv = b.value(t["cond"])
+                div = cv[2] if cv[0] == "bin" and cv[1] == "Eq" else None
+                if div is None or not guarded(div):
+                    out.append((b, bi, t, str(t["msg"]).split("(")[0]))
+            if t["k"] == "call":
+                c = t["callee"]
+                p_ = strip_generics(c.get("path", ""))
+                st = str(c.get("self_ty") or "")
+                if (p_.endswith(("Div::div", "DivAssign::div_assign", "Rem::rem")) and st.endswith("time::Duration")) and len(t["args"]) == 2 and t["args"][1]["k"] != "const" and not guarded(b.value(t["args"][1])):
+                    out.append((b, bi, t, "Duration / integer"))
+    return out
+
+
+ERR_TYPES = ("anyhow::Error", "NutsError", "std::io::Error", "dyn std::error::Error", "StorageError", "ArrowError", "LogpError")
+ACCUMULATE = ("get_or_insert", "get_or_insert_with", "insert", "replace", "push", "push_back", "extend", "append", "or_insert", "or_insert_with")
+
+
+def _unread_error_accumulators(F, in_scope):
+    """Locals that collect error values (Option<Error>, Vec<Error>, ..) and are written but never read again."""
+    out = []
+    for b in sorted(F.bodies.values(), key=lambda x: x.path):
+        if not in_scope(b) or K.is_std_derive(b) or not b.blocks:
+            continue
+        for l, lc in enumerate(b.locals):
+            ty = lc["ty"]
+            if l == 0 or b.is_arg(l) or not b.local_name(l):
+                continue
+            if not (ty.startswith(("std::option::Option<", "std::vec::Vec<", "std::collections::VecDeque<")) and any(e in ty for e in ERR_TYPES)) or ty.startswith("std::option::Option<&"):
+                continue
+            writes, reads = 0, 0
+            mut_tmps = set()
+            for bi, blk in enumerate(b.blocks):
+                if blk["cleanup"]:
+                    continue
+                for st in blk["stmts"]:
+                    if st["k"] != "assign":
+                        continue
+                    rv = st["rv"]
+                    if st["pl"]["l"] == l:
+                        if not (rv["k"] == "agg" and rv.get("variant") == "None") and not (rv["k"] == "use" and rv["op"]["k"] == "const"):
+                            writes += 1 if rv["k"] == "agg" else 0
+                        continue
+                    if rv["k"] in ("ref", "rawptr") and rv["pl"]["l"] == l:
+                        if rv.get("bk") in ("mut", "Mut") and not rv["pl"]["p"]:
+                            mut_tmps.add(st["pl"]["l"])
+                        else:
+                            reads += 1
+                    elif rv["k"] == "discr" and rv["pl"]["l"] == l:
+                        reads += 1
+                    else:
+                        for k_ in ("op", "a", "b"):
+                            o = rv.get(k_)
+                            if isinstance(o, dict) and o.get("k") in ("copy", "move") and o["pl"]["l"] == l:
+                                reads += 1
+                        for o in rv.get("ops", []) or []:
+                            if o.get("k") in ("copy", "move") and o["pl"]["l"] == l:
+                                reads += 1
+                t = blk["term"]
+                if t["k"] == "call":
+                    nm = t["callee"].get("name")
+                    for i, a in enumerate(t["args"]):
+                        if a["k"] in ("copy", "move") and a["pl"]["l"] == l:
+                            reads += 1
+                        if a["k"] in ("copy", "move") and a["pl"]["l"] in mut_tmps and not a["pl"]["p"]:
+                            if i == 0 and nm in ACCUMULATE:
+                                writes += 1
+                            else:
+                                reads += 1
+                if t["k"] == "switch" and t["discr"]["k"] in ("copy", "move") and t["discr"]["pl"]["l"] == l:
+                    reads += 1
+            if writes and not reads:
+                out.append((b, l, b.local_name(l), ty, writes))
+    return out
+
+
+def r10(F, R):
+    R.rule("C13-R10", "collected errors are looked at: a local that accumulates error values (Option<Error> / Vec<Error> filled with get_or_insert / push / "
+                      "insert / Some(e)) is read again - returned, matched or handed on - before it goes out of scope; an accumulator that is only written "
+                      "swallows every failure it was given")
+    hits = _unread_error_accumulators(F, lambda b: True)
+    for (b, l, name, ty, w) in hits:
+        R.bad("C13-R10", "%s:%s" % (b.path, name), "%s @%s" % (b.path, b.loc()), "`%s: %s` is written %d time(s) and never read: the errors stored in it are dropped silently" % (name, ty[:80], w))
+    if not hits:
+        R.ok("C13-R10", "scan", "library crates", "no write-only error accumulator in %d bodies" % len(F.bodies))
+    P = K.positive_facts()
+    ph = {b.path.split("::")[-1] for (b, _l, _n, _t, _w) in _unread_error_accumulators(P, lambda b: True)}
+    if "c13_collected_error_dropped" in ph and "c13_collected_error_returned" not in ph:
+        R.ok("C13-R10", "positive-control", "fixtures/positive", "the planted write-only accumulator is reported, the returned one is not")
+    else:
+        R.bad("C13-R10", "positive-control", "fixtures/positive", "matcher failed on the planted accumulators: %s" % sorted(ph))
+
+
+def r9(F, R):
+    R.rule("C13-R9", "no division that panics on zero in library code: an integer `/` or `%` whose divisor is not a constant, or `Duration / n`, panics when the "
+                     "divisor is 0 - and counts taken from a draw (steps, draws, chains) are 0 for a trajectory that fails on its first step, for an empty run, "
+                     "for dimension 0. Such a panic in the chain worker poisons the trace and progress locks and re-surfaces as a panic of the calling thread "
+                     "instead of an Err")
+    hits = _zero_divisions(F, lambda b: not b.path.startswith(("storage::csv::tests", "tests::")))
+    for (b, bi, t, what) in hits:
+        R.bad("C13-R9", "%s:%s" % (b.path, what.split(" ")[0]), "%s @%s" % (b.path, loc(t["span"])), "%s with a divisor that can be zero at run time (use checked_div / a guard)" % what)
+    if not hits:
+        R.ok("C13-R9", "scan", "library crates", "%d bodies: no integer or Duration division with a non-constant divisor" % len(F.bodies))
+    P = K.positive_facts()
+    ph = {b.path.split("::")[-1] for (b, _bi, _t, _w) in _zero_divisions(P, lambda b: True)}
+    if {"c13_int_div", "c13_duration_div"} <= ph and "c13_int_div_guarded" not in ph:
+        R.ok("C13-R9", "positive-control", "fixtures/positive", "the planted integer and Duration divisions are reported")
+    else:
+        R.bad("C13-R9", "positive-control", "fixtures/positive", "matcher misses planted divisions: found %s" % sorted(ph))
+
+
 def run(F, R, config="all"):
     feats = (F.crates and [c for c in F.crates if c["name"] == "nuts_rs"][0]["features"]) or []
     if "parallel" not in feats:
@@ -517,6 +656,8 @@ def run(F, R, config="all"):
     c05.r1(F, R, rid="C13-R5")
     r6(F, R)
     r8(F, R)
+    r9(F, R)
+    r10(F, R)
     # a panic in the chain worker is not an Err: the MCLMC retry bookkeeping must cover its step budget or `assert!(steps_taken >= num_base_steps)` fires
     from . import c18
     K.borrow_rule(R, lambda sub: c18.r4(F, sub), "C13-R7", "recoverable density errors inside an MCLMC trajectory are retried with a smaller step without ever tripping the "
